@@ -346,6 +346,63 @@ package plugin
 
 // Prepare sets the OS-facing function fields; configuration fields are untouched.
 //@ iface plugin.Plugin.Prepare(self, ifi) (err)
-//@   requires P1: pluginCfgOK(self)
+//@   requires P1: pluginCfgOK(self) && ifi != nil
 //@   assigns heap(plugin.Prefix) at ite(isType(self, "*plugin.Prefix"), self.val, 0), heap(plugin.Route) at ite(isType(self, "*plugin.Route"), self.val, 0), heap(plugin.RDNSS) at ite(isType(self, "*plugin.RDNSS"), self.val, 0), heap(plugin.LLA) at ite(isType(self, "*plugin.LLA"), self.val, 0)
 //@   ensures E1: pluginCfgOK(self)
+
+// ---------------------------------------------------------------------------
+// Prepare: wires a plugin to the interface the advertiser was dialled on. The
+// wildcard plugins list the addresses of exactly that interface (C13, C14); the
+// source link-layer address option carries that interface's hardware address
+// (C01).
+
+//@ iface system.Addresser.AddressesByIndex(self, index) (ips, err)
+//@ iface system.Addresser.LoopbackRoutes(self) (rs, err)
+
+//@ func (*Prefix).Prepare$1
+//@   ghost local listed Bool
+//@   opt capture CAP
+//@   requires CAP [C13]: a != nil && ifi != nil
+//@   assigns everything
+//@   at call AddressesByIndex(aa, idx): assert A1 [C13]: aa == a && idx == ifi.Index && !ghost.listed
+//@   at call AddressesByIndex(aa, idx) (ips, lerr): ghost.listed = true
+//@   ensures E1 [C13]: ghost.listed
+//@ func (*Prefix).Prepare
+//@   opt refines iface:plugin.Plugin.Prepare
+//@   opt refinetags [C17]
+//@   requires P1: p != nil && ifi != nil
+//@   assigns everything
+//@   ensures E1 [C13,C17]: result == nil && p.Addrs != nil && p.TimeNow != nil && isClosure(p.Addrs, "plugin.(*Prefix).Prepare$1")
+//@   ensures E2 [C13]: p.Prefix == old(p.Prefix) && p.Auto == old(p.Auto) && p.OnLink == old(p.OnLink) && p.Autonomous == old(p.Autonomous) && p.ValidLifetime == old(p.ValidLifetime) && p.PreferredLifetime == old(p.PreferredLifetime) && p.Deprecated == old(p.Deprecated) && p.Epoch == old(p.Epoch)
+
+//@ func (*RDNSS).Prepare$1
+//@   ghost local listed Bool
+//@   opt capture CAP
+//@   requires CAP [C14]: a != nil && ifi != nil
+//@   assigns everything
+//@   at call AddressesByIndex(aa, idx): assert A1 [C14]: aa == a && idx == ifi.Index && !ghost.listed
+//@   at call AddressesByIndex(aa, idx) (ips, lerr): ghost.listed = true
+//@   ensures E1 [C14]: ghost.listed
+//@ func (*RDNSS).Prepare
+//@   opt refines iface:plugin.Plugin.Prepare
+//@   opt refinetags [C17]
+//@   requires P1: r != nil && ifi != nil
+//@   assigns everything
+//@   ensures E1 [C14,C17]: result == nil && r.Addrs != nil && isClosure(r.Addrs, "plugin.(*RDNSS).Prepare$1")
+//@   ensures E2 [C14]: r.Auto == old(r.Auto) && r.Lifetime == old(r.Lifetime) && r.Servers == old(r.Servers)
+
+//@ func (*Route).Prepare
+//@   opt refines iface:plugin.Plugin.Prepare
+//@   opt refinetags [C17]
+//@   requires P1: r != nil
+//@   assigns everything
+//@   ensures E1 [C15,C17]: result == nil && r.Routes != nil && r.TimeNow != nil
+//@   ensures E2 [C15]: r.Prefix == old(r.Prefix) && r.Auto == old(r.Auto) && r.Preference == old(r.Preference) && r.Lifetime == old(r.Lifetime) && r.Deprecated == old(r.Deprecated) && r.Epoch == old(r.Epoch)
+
+//@ func (*LLA).Prepare
+//@   opt refines iface:plugin.Plugin.Prepare
+//@   opt refinetags [C17]
+//@   requires P1: l != nil && ifi != nil
+//@   assigns heap(plugin.LLA) at l
+//@   ensures E1 [C01]: result == nil && l.Addr == ifi.HardwareAddr
+//@   opt frame [C01]
